@@ -217,7 +217,11 @@ class RunAnalysis:
                     stored_keys = {key for (_, _, _, key, ex, _) in hot_calls if ex == 1}
                     missing = [k for k in stored_keys if k not in d[0]]
                     ev("calls-only-quiescent-check")
-                    if missing and (hs["limit"] is None or len(d[0]) < hs["limit"]):
+                    # only for caches WITHOUT an entry limit: there nothing at all may remove an entry.  (With a limit the real
+                    # code legitimately evicts a live entry on account of a queue slot whose entry a racing store lost, and may
+                    # end below its limit - observed on the unchanged tree, sync LFU limit 1 - so "vanished from a cache that
+                    # is not full" is NOT a sound monitor there.)
+                    if missing and hs["limit"] is None:
                         fail("C14", f"calls-only run on shared cache {hs['name']} (limit {hs['limit']}): {len(missing)} key(s) stored by completed calls are gone at "
                                     f"quiescence although the cache holds only {len(d[0])} entries - nothing but an eviction of a FULL cache may remove them, "
                                     f"so they are not served to other threads (schedule [{sched}])", replay)
@@ -262,6 +266,9 @@ class RunAnalysis:
                     fail("C04", f"after concurrent stores cache {s['name']} holds {len(entries)} entries with limit {s['limit']} (schedule [{sched}])", replay)
                 if len(set(queue)) != len(queue):
                     fail("C18", f"at quiescence the queue of cache {s['name']} has duplicate keys", replay)
+                    if not s["thread"]:
+                        fail("C14", f"shared cache {s['name']}: after threads stored the same key concurrently its queue holds that key twice; the surplus slot makes the "
+                                    f"cache evict entries other threads stored while it is not full, so they are no longer served (schedule [{sched}])", replay)
                 ev("quiescent-cache-checked")
             for part in stats_s.split(";"):
                 fi, _, hm = part.partition("=")
@@ -336,6 +343,14 @@ def build_cdata(spec, sites, fns, ktable, iline, vline, qline):
             if lname not in ("O", "M") or own != str(hot):
                 continue
             cur[t]["targets_hot"] = True
+            if lname == "M" and t in sec:
+                # nested store-lock acquisition inside an open queue-mutex section: the section TAKES EFFECT where it
+                # WRITES the store (lookups of other threads take only the store lock, so they see the store change at
+                # that point, not when the section ends); later read acquisitions (memory totals) change nothing
+                if mode == "x":
+                    sec[t][1] = pos
+                    sec[t].append(pos)
+                continue
             if lname == "O":
                 if site == 6002 and prev_pos is not None:
                     # async conditional callback: collect (lock-free scan), then purge under the queue mutex.  The scan
@@ -347,13 +362,19 @@ def build_cdata(spec, sites, fns, ktable, iline, vline, qline):
                 else:
                     steps.append((pos, t))
             else:
-                if t in sec:
-                    sec[t][1] = pos
-                else:
-                    steps.append((pos, t))
+                steps.append((pos, t))
         elif kind == "R":
             ln = int(body)
             if t in sec and sec[t][0] == ln:
+                writes = sec[t][2:]
+                if len(writes) >= 2:
+                    # several store writes in one section (memory loop): atomic in the model; representable only if no
+                    # other thread's event fell between the first and the last of them
+                    lo, hi = writes[0], writes[-1]
+                    for q in range(lo + 1, hi):
+                        eq = events[q]
+                        if eq and eq[0] in "SAER" and int(eq[1:eq.index(":")]) != t:
+                            return None
                 steps.append((sec[t][1], t))
                 del sec[t]
         elif kind == "E":
